@@ -125,7 +125,10 @@ impl Record {
     /// ```
     pub fn end(&self) -> io::Result<Position> {
         let Some(start) = self.variant_start().transpose()? else {
-            todo!();
+            return Err(io::Error::new(
+                io::ErrorKind::InvalidData,
+                "missing variant start",
+            ));
         };
 
         let len = self.rlen()?;
